@@ -11,8 +11,8 @@ Local Open Scope N_scope.
 Definition add64 (a b : N) : N := (a + b) mod W64.
 Definition sub64 (a b : N) : N := (a + W64 - b mod W64) mod W64.
 
-(* frg::option: name view + fn.has_arg (fn.ptr is non-null for every helper of cmdline.hpp) *)
-Record copt := mkOpt { o_name : view; o_has_arg : bool }.
+(* frg::option: name view, fn.has_arg, and whether fn.ptr is non-null (a reserved / unbound option has a null handler) *)
+Record copt := mkOpt { o_name : view; o_has_arg : bool; o_has_fn : bool }.
 
 Inductive item :=
 | IRead (r : range)               (* a byte of some buffer was read *)
@@ -28,6 +28,9 @@ Definition bindT {A B} (c : T A) (f : A -> T B) : T B :=
 Notation "x <~~ c ;; f" := (bindT c (fun x => f)) (at level 61, c at next level, right associativity).
 Definition liftT {A} (c : R A) : T A := (fst c, map IRead (snd c)).
 Definition emit (idx : nat) (v : view) : T unit := (Ok tt, [IApply idx v]).
+(* option::apply(value): FRG_ASSERT(fn.ptr); fn.ptr(value, fn.ctx) *)
+Definition apply_opt (idx : nat) (o : copt) (v : view) : T unit :=
+  if o_has_fn o then emit idx v else (AssertStop a_option_apply, []).
 
 Section Parse.
 Variable m : mem.
@@ -41,14 +44,14 @@ Definition try_apply (arg : view) (idx : nat) (o : copt) : T bool :=
     if o_has_arg o then retT false else
     e <~~ liftT (view_eq m (o_name o) arg) ;;
     if negb e then retT false else
-    _ <~~ emit idx VNull ;; retT true
+    _ <~~ apply_opt idx o VNull ;; retT true
   else
     if negb (o_has_arg o) then retT false else
     name <~~ liftT (sub_string arg 0 eq) ;;
     val <~~ liftT (sub_string arg (add64 eq 1) (sub64 (sub64 (vlen arg) eq) 1)) ;;
     e <~~ liftT (view_eq m (o_name o) name) ;;
     if negb e then retT false else
-    _ <~~ emit idx val ;; retT true.
+    _ <~~ apply_opt idx o val ;; retT true.
 
 Fixpoint try_all (arg : view) (idx : nat) (opts : list copt) : T unit :=
   match opts with
@@ -91,15 +94,18 @@ End Parse.
 (* script level: the command line is buffer 0 (exact size), option names are buffers 1, 2, ... *)
 Fixpoint opt_mem (names : list (list byte)) (id : nat) : mem :=
   match names with [] => [] | n :: r => (id, n) :: opt_mem r (S id) end.
-Fixpoint opt_table (tbl : list (list byte * bool)) (id : nat) : list copt :=
+(* a table entry: (name, has_arg, handler present) *)
+Definition tentry := (list byte * bool * bool)%type.
+Definition te_name (e : tentry) : list byte := fst (fst e).
+Fixpoint opt_table (tbl : list tentry) (id : nat) : list copt :=
   match tbl with
   | [] => []
-  | (n, h) :: r => mkOpt (V id 0 (N.of_nat (length n))) h :: opt_table r (S id)
+  | (n, h, f) :: r => mkOpt (V id 0 (N.of_nat (length n))) h f :: opt_table r (S id)
   end.
-Definition run_mem (tbl : list (list byte * bool)) (cl : list byte) : mem :=
-  (0%nat, cl) :: opt_mem (map fst tbl) 1.
+Definition run_mem (tbl : list tentry) (cl : list byte) : mem :=
+  (0%nat, cl) :: opt_mem (map te_name tbl) 1.
 (* null_cl = true: parse_arguments(string_view{}, ...) *)
-Definition run_cmdline_with (sub : view -> N -> N -> R view) (tbl : list (list byte * bool)) (cl : list byte) (null_cl : bool) : T unit :=
+Definition run_cmdline_with (sub : view -> N -> N -> R view) (tbl : list tentry) (cl : list byte) (null_cl : bool) : T unit :=
   parse_arguments (run_mem tbl cl) sub (if null_cl then VNull else V 0 0 (N.of_nat (length cl))) (opt_table tbl 1).
 Definition run_cmdline := run_cmdline_with sub_string.
 
@@ -125,6 +131,6 @@ Fixpoint upd_target (m : mem) (kinds : list okind) (tg : list tval) (idx : nat) 
 Definition targets (m : mem) (kinds : list okind) (items : list item) : list tval :=
   fold_left (fun tg it => match it with IApply idx v => upd_target m kinds tg idx v | IRead _ => tg end)
             items (map target0 kinds).
-Definition run_cmdline_targets (tbl : list (list byte * bool)) (kinds : list okind) (cl : list byte) (null_cl : bool)
+Definition run_cmdline_targets (tbl : list tentry) (kinds : list okind) (cl : list byte) (null_cl : bool)
   : T unit * list tval :=
   let r := run_cmdline tbl cl null_cl in (r, targets (run_mem tbl cl) kinds (snd r)).
